@@ -32,6 +32,7 @@ type state struct {
 	ij         data.Map           // injected data available to all templates.
 	msgs       soymsg.Bundle      // replacement text for {msg} tags
 	depth      int                // how many {call}s deep is this template being rendered?
+	calls      *[]*state          // the called templates being rendered, outermost first (shared by all of them)
 }
 
 // maxCallDepth bounds the nesting of {call}s at run time. Every level costs
@@ -93,6 +94,16 @@ func (s *state) callAnnotation() string {
 // level of Parse.
 func (s *state) errRecover(errp *error) {
 	if e := recover(); e != nil {
+		// the failure happened inside the innermost of the called templates: it is
+		// annotated with each of them, from the inside out. (Doing this here, once,
+		// instead of recovering and panicking again at every level of {call} keeps
+		// the cost of a failure proportional to the depth, not to its square.)
+		if s.calls != nil {
+			for i := len(*s.calls) - 1; i >= 0; i-- {
+				e = fmt.Errorf("%s: %v", (*s.calls)[i].callAnnotation(), e)
+			}
+			*s.calls = nil
+		}
 		switch e := e.(type) {
 		case runtime.Error:
 			*errp = s.errFromNode("%s: %v\n%v", s.callAnnotation(), e, string(debug.Stack()))
@@ -563,6 +574,9 @@ func (s *state) evalCall(node *ast.CallNode) {
 	// called template is reported at this {call}.
 	s.at(node)
 
+	if s.calls == nil {
+		s.calls = new([]*state)
+	}
 	if s.depth >= maxCallDepth {
 		s.errorf("templates call each other more than %d levels deep (calling %s)", maxCallDepth, node.Name)
 	}
@@ -580,13 +594,11 @@ func (s *state) evalCall(node *ast.CallNode) {
 		msgs:       s.msgs,
 	}
 
-	defer func() {
-		if e := recover(); e != nil {
-			panic(fmt.Errorf("%s: %v", state.callAnnotation(), e))
-		}
-	}()
-
+	// (if the walk panics the entry stays: errRecover annotates the failure with it)
+	state.calls = s.calls
+	*s.calls = append(*s.calls, state)
 	state.walk(calledTmpl.Node)
+	*s.calls = (*s.calls)[:len(*s.calls)-1]
 }
 
 // renderBlock is a helper that renders the given node to a temporary output
